@@ -109,12 +109,20 @@ Section Float.
     apply f_equal. apply lor_wrapped.
   Qed.
 
+  (* linear_to_srgba(vec4f): straight-line, NO guard on the components: channel k of the result is the scalar
+     path applied to component k alone (alpha: max(w, 0), not gamma-corrected) *)
+  Lemma gen_linear_to_srgba x y z w :
+    linear_to_srgba__v4f I (mk_vec4 I x y z w)
+    = mk_vec4 I (linear_to_srgb powf x) (linear_to_srgb powf y) (linear_to_srgb powf z) (maxR w 0).
+  Proof.
+    unfold linear_to_srgba__v4f, v4f_mk__f_f_f_f. cbn [vec4_x vec4_y vec4_z vec4_w].
+    rewrite !gen_linear_to_srgb. cbn [I IF32 lib f_lib flit rt]. rewrite lit_f0. reflexivity.
+  Qed.
+
   Lemma gen_srgba8 x y z w :
     linear_to_srgba8__v4f I (mk_vec4 I x y z w) = IZR (linear_to_srgba8 powf x y z w).
   Proof.
-    unfold linear_to_srgba8__v4f, linear_to_srgba__v4f, v4f_mk__f_f_f_f, linear_to_srgba8.
-    cbn [vec4_x vec4_y vec4_z vec4_w]. rewrite gen_pack, !gen_linear_to_srgb.
-    cbn [I IF32 lib f_lib flit rt]. rewrite lit_f0. reflexivity.
+    unfold linear_to_srgba8__v4f. rewrite gen_linear_to_srgba, gen_pack. reflexivity.
   Qed.
 End Float.
 
